@@ -15,6 +15,7 @@ import (
 	"fmt"
 	"testing"
 
+	"github.com/postalsys/muti-metroo/internal/protocol"
 	"github.com/postalsys/muti-metroo/internal/sleep"
 	"github.com/postalsys/muti-metroo/internal/verifkit"
 )
@@ -103,6 +104,42 @@ func c29AgentCase(r *verifkit.R, phase string, ci int, rng *verifkit.Rand, dir s
 			op = "replay"
 		case k < 6:
 			op = "forged"
+		case k < 8 && h.canSign && !effWake:
+			op = "trigger"
+		}
+		if op == "trigger" {
+			// the agent originates a signed sleep command itself; what its peers receive is a
+			// command that has taken effect on this agent once
+			if err := h.a.TriggerSleep(); err != nil {
+				r.Inconclusive("TriggerSleep: " + err.Error())
+				return
+			}
+			rx := h.barrier()
+			if h.broken != "" {
+				r.Inconclusive(h.broken)
+				return
+			}
+			sleeps, wakes := h.takeEvents()
+			got := 0
+			for _, fr := range rx {
+				if fr.Type != protocol.FrameSleepCommand {
+					continue
+				}
+				d, err := protocol.DecodeSleepCommand(fr.Payload)
+				if err != nil {
+					continue
+				}
+				c := (&c28Cmd{Origin: d.OriginAgent, ID: d.CommandID, TS: d.Timestamp, Sig: d.Signature, Class: "valid", TSIn: true}).as(false, g.good.PublicKey)
+				if got == 0 && c.valid() && sleeps > 0 {
+					gens = append(gens, &c29AGen{cmd: c, acts: 1, firstVia: "local-trigger"})
+					r.Add("first_acts", 1)
+					r.Add("locally_triggered", 1)
+				}
+				got++
+			}
+			steps = append(steps, c29AStep{Op: op, Path: "TriggerSleep", Cmd: len(gens) - 1, Type: "sleep", Before: before.String(), Sleeps: sleeps, Wakes: wakes, Forwards: got})
+			fp += fmt.Sprintf("trigger/%d/%d/%d;", sleeps, wakes, got)
+			continue
 		}
 		queued := rng.Bool()
 		var c *c28Cmd
